@@ -200,3 +200,26 @@ def _c16_higher_order(rec):
                 for c in ast.walk(n)):
             return True
     return False
+
+
+# ----------------------------------------------------------------------------------------- C04
+def _max_expr_depth(text):
+    tree = _parse(text or "")
+    if tree is None:
+        return 0
+    best = 0
+    stack = [(tree, 0)]
+    while stack:
+        node, d = stack.pop()
+        best = max(best, d)
+        for child in ast.iter_child_nodes(node):
+            stack.append((child, d + 1))
+    return best
+
+
+@classifier("deep-expression-recursion")
+def _c04_deep_recursion(rec):
+    """The analyses (has_side_effect, literal_value, match_template, ast.unparse) recurse over the syntax tree; an
+    expression nested several hundred levels deep (`1 + 1 + ... + 1` with 800 terms) exhausts the default recursion limit."""
+    d = rec.get("detail") or {}
+    return rec.get("kind") == "format_code_raised" and d.get("exc") == "RecursionError" and _max_expr_depth(rec.get("input")) > 150
